@@ -717,6 +717,10 @@ pub fn run_c06(args: &Args, tier: &str, seed: u64) -> Report {
     let only = args.get("--only").and_then(|s| s.parse::<u64>().ok());
     let nthreads = if only.is_some() { 1 } else { threads() };
     let max_all = tier_pick(tier, 14usize, 20);
+    // deterministic prefix: the hand-enumerated shapes (all boundary lengths, every kind, nested forms) in reference encoding
+    let shapes: Vec<Model> = gen::shapes();
+    let nshapes = shapes.len() as u64;
+    let n = n + nshapes;
     let parts = par(nthreads, |shard| {
         let mut rep = Report::new("C06", tier, seed);
         let mut idx = shard as u64;
@@ -726,9 +730,22 @@ pub fn run_c06(args: &Args, tier: &str, seed: u64) -> Report {
                 idx += nthreads as u64;
                 continue;
             }
-            let mut wf = c06_msg(seed, idx, tier);
+            let mut wf = if idx >= n - nshapes {
+                let m = &shapes[(idx - (n - nshapes)) as usize];
+                let w = ippref::model_to_wire_like(m, None);
+                let head = ippref::encode_head(&w);
+                let head_len = head.len();
+                let mut bytes = head;
+                bytes.extend_from_slice(&m.data[..m.data.len().min(4096)]);
+                if m.data.is_empty() {
+                    bytes.extend_from_slice(b"payload after a shape");
+                }
+                Wf { bytes: Arc::new(bytes), head_len, label: format!("shape {}", idx - (n - nshapes)) }
+            } else {
+                c06_msg(seed, idx, tier)
+            };
             // every 5th case: a short message so that all compositions are feasible
-            if idx % 5 == 0 {
+            if idx % 5 == 0 && idx < n - nshapes {
                 let (b, _) = Ctx::short_wellformed(seed, idx);
                 let hl = ippref::head_len(&b).unwrap();
                 let mut bytes = b[..hl].to_vec();
@@ -799,7 +816,7 @@ pub fn run_c06(args: &Args, tier: &str, seed: u64) -> Report {
         rep
     });
     let mut rep = merge_all("C06", tier, seed, parts);
-    rep.rule = format!("Well-formed messages (G1/G2, plus short messages) x payloads (empty, 1 byte, tag look-alikes, a second complete IPP message, random up to MiBs) x read schedules (whole: the source honours the full requested size so any read-ahead over-consumes; 1-byte; uniform; random compositions with Interrupted (blocking) / Pending immediate+deferred (async) steps; Interrupted/Pending before every read; ALL 2^(n-1) compositions of the header+attributes for messages of 9..{max_all} bytes). Monitors on the scripted source's log: bytes delivered at return of parse / parse_parts == offset just past the end-of-attributes tag (computed by the reference decoder); reader from parse_parts yields exactly the rest; payload byte-identical; result == unfragmented result. Four entry points per (message, schedule): blocking/async x parse/parse_parts; plus two cross reads per message: the payload of an async-parsed message through std::io::Read and of a blocking-parsed message through AsyncRead, with not-ready / interrupted results inside the payload region. evaluations = entry-point runs; distinct_nontrivial = distinct messages carrying a payload.");
+    rep.rule = format!("Well-formed messages (G1/G2, short messages, and the hand-enumerated shapes with every boundary length) x payloads (empty, 1 byte, tag look-alikes, a second complete IPP message, random up to MiBs) x read schedules (whole: the source honours the full requested size so any read-ahead over-consumes; 1-byte; uniform; random compositions with Interrupted (blocking) / Pending immediate+deferred (async) steps; Interrupted/Pending before every read; ALL 2^(n-1) compositions of the header+attributes for messages of 9..{max_all} bytes). Monitors on the scripted source's log: bytes delivered at return of parse / parse_parts == offset just past the end-of-attributes tag (computed by the reference decoder); reader from parse_parts yields exactly the rest; payload byte-identical; result == unfragmented result. Four entry points per (message, schedule): blocking/async x parse/parse_parts; plus two cross reads per message: the payload of an async-parsed message through std::io::Read and of a blocking-parsed message through AsyncRead, with not-ready / interrupted results inside the payload region. evaluations = entry-point runs; distinct_nontrivial = distinct messages carrying a payload.");
     if only.is_none() {
         rep.require(rep.counters.get("schedules_compositions").copied().unwrap_or(0) > 50_000, "exhaustive compositions executed");
         rep.require(rep.counters.get("deferred_wakes").copied().unwrap_or(0) > 1000, "deferred wake-ups observed");
